@@ -10,3 +10,12 @@ sed "s#=> /repo#=> $SCR/repo-pristine#" "$VERIF/go.mod" > "$SCR/pristine.mod"
 cp "$VERIF/go.sum" "$SCR/pristine.sum"
 (cd "$VERIF" && go build -trimpath -modfile="$SCR/pristine.mod" -o "$SCR/bin/c07fresh" ./c07/fresh) >"$SCR/build.log" 2>&1 || { cat "$SCR/build.log" >&2; fail "build of the fresh-process driver failed"; }
 (cd "$SCR/repo-pristine" && go build -trimpath -o "$SCR/bin/gomacro-cli" ./cmd) >"$SCR/build.log" 2>&1 || { cat "$SCR/build.log" >&2; fail "build of cmd/gomacro failed"; }
+# controlled command tier: a second instrumented copy (map ranges + sync/go/exec) with a driver inside cmd/
+cp -a "$SCR/repo" "$SCR/repo-cmd"
+"$VERIF/bin/instr" -mode conc -repo "$SCR/repo-cmd" -report "$SCR/instr-conc.json" || fail "instrumenter (conc) failed"
+cp "$VERIF/c07/cmdtier/main.go" "$SCR/repo-cmd/cmd/verif_cmdtier.go"
+if (cd "$SCR/repo-cmd" && go build -trimpath -tags verif -o "$SCR/bin/c07cmd" ./cmd) >"$SCR/build.log" 2>&1; then :; else
+	cp "$SCR/build.log" "$SCR/c07cmd-build.log"
+	echo "note: the controlled command tier does not build on this tree (cmd package changed shape); skipped" >&2
+	rm -f "$SCR/bin/c07cmd"
+fi
